@@ -183,6 +183,36 @@ def run(report, p):
         if not stamped:
             raise AnalysisError(f"{f.qual}: the time stamp that goes into the manifest file name could not be traced to a strftime call")
 
+    # ------------------------------------------------------------------ R16.8
+    r8 = report.rule(
+        "R16.8",
+        "every date attribute of a manifest is formatted with the local offset: at each call of the ISO formatter the only parameters that are set are the date and the "
+        "keep-microseconds flag - a parameter that changes the zone of the output (utc=, tz=, offset=) is never bound to a value other than its default, in particular not by a "
+        "positional argument that used to mean something else before the signature was extended",
+        4,
+    )
+    iso = p.funcs.get("ascmhl.utils.datetime_isostring")
+    if iso is None:
+        raise AnalysisError("utils.datetime_isostring not found")
+    zone_params = [pn for pn in iso.params[1:] if not ("micro" in pn or "keep" in pn)]
+    for cf, call in _callers(p, iso.qual):
+        if cf.module.name.endswith("_debug_commands"):
+            continue
+        r8.instance(cf, call, f"{cf.name}: {norm(call)[:60]}")
+        b = p.bind_args(iso, call)
+        dfl = iso.param_defaults()
+        for pn in zone_params:
+            arg = b.get(pn)
+            if arg is None or arg is dfl.get(pn):
+                continue
+            v = p.fold(arg, cf)
+            is_default = isinstance(dfl.get(pn), ast.Constant) and v == dfl[pn].value and (v is not None or isinstance(arg, ast.Constant))
+            feeds_manifest = cf.module.name.endswith(("_xml_parser", "utils"))
+            if not is_default and feeds_manifest:
+                positional = any(arg is a for a in call.args)
+                r8.check(False, cf, call, f"`{norm(call)[:60]}` sets `{pn}={norm(arg)}` of the ISO formatter{' through a positional argument' if positional else ''}: the date attribute is then written in another zone than the configured one (the value `{norm(arg)}` was {'probably meant for another parameter: positional flags shift when a parameter is inserted' if positional else 'set explicitly'})", construct=f"{cf.name}: ISO formatter called with {pn}={norm(arg)}")
+    r8.check(True, iso, iso.node, "")
+
     # ------------------------------------------------------------------ R16.7
     r7 = report.rule(
         "R16.7",
@@ -228,6 +258,12 @@ def run(report, p):
 
     include_rules(report, p, 'c18', ['R18.2'], 'a flattened manifest states, for every digest, the instant at which that digest was computed: the hash date is carried over from the source entry')
     report.not_decided += ["correctness of the tz database", "that the instant written equals the file's mtime at run time (only its provenance)", "sizes of files that change during hashing"]
+
+
+def _callers(p, q):
+    from .common import callers_of
+
+    return callers_of(p, q)
 
 
 def _same_file(t):
